@@ -462,9 +462,10 @@ class Lark(Serialize, Generic[_Return_T]):
 
         # If the user asked to invert the priorities, negate them all here.
         if self.options.priority == 'invert':
-            for rule in self.rules:
-                if rule.options.priority is not None:
-                    rule.options.priority = -rule.options.priority
+            # The alternatives of one rule definition share a single options object: negate each once
+            for options in {id(rule.options): rule.options for rule in self.rules}.values():
+                if options.priority is not None:
+                    options.priority = -options.priority
             for term in self.terminals:
                 term.priority = -term.priority
         # Else, if the user asked to disable priorities, strip them from the
